@@ -5,7 +5,7 @@ import "time"
 func init() {
 	props = append(props, prop{
 		ID: "C18", Title: "Stop terminates and reclaims", Level: "exploration",
-		Rule:        "case = one Start -> history -> Stop|Shutdown(live context) cycle inside a long-lived process; core engine: {tcp,unix,udp} x {LT,ET,ONESHOT} x 1-3 pollers with 1-10 connections, 0-2 connections holding a 6 MiB backlog (buffers or a queued Sendfile; in a third of the cases MaxWriteBufferSize is 256 KiB so that these writes fail with the overflow error before Stop), 0-2 with pending deadlines, 0-2 DialAsync still connecting (accept queue full; with and without timeout), 0-3 goroutines closing connections while Stop runs, optionally clients that keep connecting during Stop, optionally an Engine.AddConn issued around the start of Stop (racing it, or with its open callback still running when Stop starts), seeded delays at acceptor.afterAccept / addConn.afterOnOpen / close.beforeTeardown; HTTP engine: IOMod {NonBlocking, Blocking, Mixed} x {plain, TLS} x epoll mode with served keep-alive connections, idle connections and 0-2 upgraded WebSocket connections (Upgrader.BlockingModTrasferConnToPoller on/off, BlockingModAsyncWrite on/off). Monitors: Stop returns (hang = no progress >= 30 s, idle CPU, same goroutines blocked inside nbio in two dumps 5 s apart); core engine: opens (+ pending dials) == close notifications when Stop returns; every client connection is closed or reset within 3 s after Stop returned; after the harness closed its own peers, goroutines running in / created by nbio and open descriptors equal the pre-start baseline (settle loop, then confirmed stable over 2 s); per-shard slope over all cycles is 0. A case is non-trivial when the whole cycle was decided clean; distinct by case index Further history elements: Close of an nbio.Conn before / while it is handed to AddConn; a burst of six AddConn calls around the start of Stop; application-supplied HTTP executors (server / client / both).",
+		Rule:        "case = one Start -> history -> Stop|Shutdown(live context) cycle inside a long-lived process; core engine: {tcp,unix,udp} x {LT,ET,ONESHOT} x 1-3 pollers with 1-10 connections, 0-2 connections holding a 6 MiB backlog (buffers or a queued Sendfile; in a third of the cases MaxWriteBufferSize is 256 KiB so that these writes fail with the overflow error before Stop), 0-2 with pending deadlines, 0-2 DialAsync still connecting (accept queue full; with and without timeout), 0-3 goroutines closing connections while Stop runs, optionally clients that keep connecting during Stop, optionally an Engine.AddConn issued around the start of Stop (racing it, or with its open callback still running when Stop starts), seeded delays at acceptor.afterAccept / addConn.afterOnOpen / close.beforeTeardown; HTTP engine: IOMod {NonBlocking, Blocking, Mixed} x {plain, TLS} x epoll mode with served keep-alive connections, idle connections and 0-2 upgraded WebSocket connections (Upgrader.BlockingModTrasferConnToPoller on/off, BlockingModAsyncWrite on/off). Monitors: Stop returns (hang = no progress >= 30 s, idle CPU, same goroutines blocked inside nbio in two dumps 5 s apart); core engine: opens (+ pending dials) == close notifications when Stop returns; every client connection is closed or reset within 3 s after Stop returned; after the harness closed its own peers, goroutines running in / created by nbio and open descriptors equal the pre-start baseline (settle loop, then confirmed stable over 2 s); per-shard slope over all cycles is 0. A case is non-trivial when the whole cycle was decided clean; distinct by case index Further history elements: Close of an nbio.Conn before / while it is handed to AddConn; a burst of six AddConn calls around the start of Stop; application-supplied HTTP executors (server / client / both). DialAsync calls issued around the start of Stop (refused, or taken and closed by Stop).",
 		Assumptions: commonAssumptions,
 		Phases: []phase{
 			{Name: "main", Pkg: "./workers/c18", QuickShards: 12, ThorShards: 16, QuickTO: 8 * time.Minute},
